@@ -132,7 +132,7 @@ CHECKS["C17"] = dict(text="Recorded SparseKDE fits on integer lattices (1-3 dime
 CHECKS["C09"] = dict(text="TLC model-checks the abstract lifecycle (caller memory cells, hyper-parameters, learned state) over all histories of <= 3 fits and "
     "shows that each mechanism found in the code (attribute replaced only when targets are given, hyper-parameter written back by fit, in-place "
     "scaling of a caller array) violates exactly one invariant; TLC enumerates every history of <= 3 fits over {data A, B, C (same shape as A)} x {with y, without y} x "
-    "{small, large request / the two settings of a switched hyper-parameter} (1884) and they are replayed on 39 estimator configurations in four memory layouts (C, F, read-only, strided view); TLC "
+    "{small, large request / the two settings of a switched hyper-parameter} (1884) and they are replayed on 35 estimator configurations in four memory layouts (C, F, read-only, strided view); TLC "
     "validates every recorded call: byte digests of all caller arrays unchanged, get_params unchanged by fit, fit returns self, the learned state "
     "after ANY history equals the register written by a fresh estimator, repeated calls agree, fit_transform = fit;transform; the same for 20 "
     "public functions / constructors taking caller arrays.", ref="6/C09",
